@@ -49,6 +49,23 @@ def jobs(tier):
         J.append(Job("arena.alloc.count%d" % c, "h_arena.c", entry="h_alloc", defines={"COUNT_FIX": c, "OFF": 8},
                      unwind=1, unwindset=us(), functions=F_ARENA, timeout=300, min_obligations=15,
                      bounded="count fixed to %d (elem_size, alignment <= 64, limits, block states symbolic); base address 8 mod 64" % c))
+    # alignments above 64, enumerated, with the base-address residues that matter for 16-aligned allocators
+    # (window just below a multiple of the alignment once the 72-byte header is added, plus 0 and a mid value)
+    BIG = [(128, r) for r in (0, 16, 64, 112)] + [(4096, r) for r in (0, 4032, 4080)]
+    if full:
+        BIG += [(128, r) for r in (8, 56, 120)] + [(256, r) for r in (0, 184, 240)] + [(4096, r) for r in (16, 4024, 4088)]
+    for a, r in BIG:
+        for c in ([1, 3] + ([2, 1000] if full else [])):
+            J.append(Job("arena.alloc.align%d.off%d.count%d" % (a, r, c), "h_arena.c", entry="h_alloc",
+                         defines={"COUNT_FIX": c, "ALIGN_FIX": a, "OFF": r}, unwind=1, unwindset=us(), functions=F_ARENA,
+                         timeout=300, min_obligations=15,
+                         bounded="alignment %d, block base address %d mod %d, count %d (elem_size, limits, block states symbolic)" % (a, r, a, c)))
+    if full:
+        for a, r in ((128, 64), (4096, 4032)):
+            J.append(Job("arena.alloc.align%d.off%d.elem8" % (a, r), "h_arena.c", entry="h_alloc",
+                         defines={"ELEM_FIX": 8, "ALIGN_FIX": a, "OFF": r}, unwind=1, unwindset=us(), functions=F_ARENA,
+                         timeout=600, min_obligations=15,
+                         bounded="alignment %d, block base address %d mod %d, elem_size 8, count symbolic" % (a, r, a)))
     elems = [8] + ([1, 1000, 4096, 72] if full else [])
     for e in elems:
         J.append(Job("arena.alloc.elem%d" % e, "h_arena.c", entry="h_alloc", defines={"ELEM_FIX": e, "OFF": 24},
@@ -138,7 +155,7 @@ META = dict(
                   "CBMC's model of posix_memalign/malloc (mempool elements)",
                   "symmetry argument: the block touched by an operation is named slot 0/1 (tracked), all other blocks are bystanders or remainders",
                   "rely/guarantee soundness theorem for the counter jobs"],
-    assumptions=["alignment <= 64 (PARSEC_ARENA_ALIGNMENT_CL1) in the function-level jobs; the pure lemma on PARSEC_ALIGN covers every power of two <= 2^61 and every base address",
+    assumptions=["alignment <= 64 (PARSEC_ARENA_ALIGNMENT_CL1) symbolic in the function-level jobs, 128 / 4096 (thorough also 256) enumerated with selected base-address residues; the pure lemma on PARSEC_ALIGN covers every power of two <= 2^61 and every base address",
                  "elem_size < 2^32, count <= 2^31-1 and used + count <= INT32_MAX in the main allocate contract: beyond that the int32 counter wraps "
                  "(job arena.alloc.anycount shows the limit is then not enforced; reported as finding)",
                  "data_malloc returns pointer-aligned (8) memory",
@@ -153,7 +170,7 @@ MANIFEST = dict(
          "cache limit (call-atomic). Unbounded in history; complete over alignments <= 64, base addresses and elem_size for "
          "single-element requests; the count*elem_size product forces one factor to be enumerated (bounded jobs), mempool element "
          "type is one concrete layout: therefore 'other', not 'proof'.",
-    note="NOT decided: LIFO correctness itself (C30 contract trusted); interleavings inside the LIFO; alignments > 64 at function level; "
+    note="NOT decided: LIFO correctness itself (C30 contract trusted); interleavings inside the LIFO; alignments > 64 at function level other than the enumerated 128 / 4096 (thorough: 256) with enumerated base-address residues; "
          "counts/elem sizes outside the enumerated factors for multi-element requests; parsec_arena_get_new_copy / GPU path; "
          "destructors. Two obligations fail on the unchanged tree and live in their own jobs (run when registered in "
          "known_findings.json or with VERIF_C27_FINDINGS=1): cache limit exceeded by concurrent releases (check-then-increment), "
